@@ -347,6 +347,26 @@ def result_agreement(ctx):
                                 if got != want:
                                     bad = bad or "%s derives flags from %d (mod %d) for d=%d s=%d, architecture %d" % (mn.upper(), got, CG.MOD, a, b, want)
                                     raise StopIteration
+                        # a sign-extended narrow immediate: the bits above it follow its sign (modulo 2^(N+4), at points
+                        # on both sides of every boundary)
+                        sexk = [kd for kd in oc["kinds"] if "sex" in kd]
+                        if sexk:
+                            nb = int(sexk[0][3:sexk[0].index("sex")])
+                            kb = nb + 4
+                            top = (1 << kb) - 1
+                            for a in (0, 1, (1 << nb) - 1, 1 << nb, 0xABC % (1 << kb), top):
+                                for b in (1, (1 << (nb - 1)) - 1, top & ~((1 << (nb - 1)) - 1), top, top - 0x54):
+                                    env = {}
+                                    for x, k in roles.items():
+                                        env[x] = a if k == 0 else b
+                                        env[A.W(x, 64)] = env[x]
+                                    got = CG.eval_k(res, env, kb, I, o.path)
+                                    want = ((a - b) if mn == "Cmp" else (a & b)) % (1 << kb)
+                                    ck.cov["sign_extension_points"] = ck.cov.get("sign_extension_points", 0) + 1
+                                    if got != want:
+                                        bad = bad or ("%s derives flags from %#x (mod 2^%d) for d=%#x imm=%#x, architecture %#x: the "
+                                                      "immediate is not sign-extended to the operand size" % (mn.upper(), got, kb, a, b, want))
+                                        raise StopIteration
                     except (CG.Undecided, StopIteration):
                         pass
             if not seen:
